@@ -90,6 +90,29 @@ using get_Action = typename Row::Action;
 template <typename Row>
 struct has_Action : mp11::mp_valid<get_Action, Row> {};
 
+// An action defers the event when it is marked `deferring_action`
+// (as front::Defer is) or is an ActionSequence_ containing such an action.
+template <typename Functor>
+using get_deferring_action = typename Functor::deferring_action;
+template <typename Functor>
+using get_some_deferring_actions = typename Functor::some_deferring_actions;
+template <typename Functor>
+constexpr bool is_deferring_functor()
+{
+    if constexpr (mp11::mp_valid<get_deferring_action, Functor>::value)
+    {
+        return true;
+    }
+    else if constexpr (mp11::mp_valid<get_some_deferring_actions, Functor>::value)
+    {
+        return Functor::some_deferring_actions::value;
+    }
+    else
+    {
+        return false;
+    }
+}
+
 template <typename Functor>
 struct invoke_action_functor
 {
@@ -99,7 +122,8 @@ struct invoke_action_functor
     {
         invoke_functor<Functor>(priority_tag_0{}, Functor{}, event, fsm, source,
                                 target);
-        return process_result::HANDLED_TRUE;
+        return is_deferring_functor<Functor>() ? process_result::HANDLED_DEFERRED
+                                               : process_result::HANDLED_TRUE;
     }
 };
 template <>
